@@ -316,6 +316,19 @@ class Inliner:
         self.kept_calls: list[str] = []
 
     # ---------------------------------------------------------------- helper resolution
+    def _unique_new_methods(self):
+        if getattr(self, "_unm", None) is None:
+            known_names = {q.rsplit(".", 1)[-1] for q in self.inventory}
+            found = {}
+            for m in self.prog.modules.values():
+                for node in ast.walk(m.tree):
+                    if isinstance(node, ast.FunctionDef) and isinstance(getattr(node, "_parent", None), ast.ClassDef) and qualname_of(node) not in self.inventory \
+                            and node.name not in known_names and not (node.name.startswith("__") and node.name.endswith("__")) \
+                            and not any(ast.unparse(d) in ("staticmethod", "classmethod", "property") for d in node.decorator_list):
+                        found.setdefault(node.name, []).append(node)
+            self._unm = {k: v[0] for k, v in found.items() if len(v) == 1}
+        return self._unm
+
     def resolve_target(self, call: ast.Call, module, cls: Optional[ast.ClassDef]):
         """FunctionDef of the package that the call resolves to (any function, inlinable or not), else None."""
         f = call.func
@@ -352,6 +365,12 @@ class Inliner:
                 target = r
                 if isinstance(getattr(r.node, "_parent", None), ast.ClassDef):
                     recv = f.value
+            elif isinstance(f.value, (ast.Name, ast.Attribute)):
+                # `other._helper()`: a method name that no function the rules know has, defined exactly once among the new
+                # functions of the package, called on some object - it can only be that helper
+                cand = self._unique_new_methods().get(f.attr)
+                if cand is not None:
+                    target, recv = DefRef(qualname_of(cand), cand), f.value
         if target is None:
             return None
         fn = target.node
@@ -763,7 +782,7 @@ class Inliner:
                     if not isinstance(n, ast.Call) or n is getattr(st, "value", None) and isinstance(st, (ast.Expr,)):
                         continue
                     # list(gen_helper(...)) / tuple(gen_helper(...)): collect the generator's values with an explicit loop first
-                    if isinstance(n.func, ast.Name) and n.func.id in ("list", "tuple") and len(n.args) == 1 and not n.keywords and isinstance(n.args[0], ast.Call) \
+                    if isinstance(n.func, ast.Name) and n.func.id in ("list", "tuple", "dict", "set", "frozenset", "sorted") and len(n.args) == 1 and not n.keywords and isinstance(n.args[0], ast.Call) \
                             and not isinstance(st, ast.While):
                         gh = self.helper_for(n.args[0], module, cls)
                         if gh is not None and qualname_of(gh[0]) not in stack and _contains(gh[0].body, (ast.Yield, ast.YieldFrom)):
@@ -781,7 +800,7 @@ class Inliner:
                             app = mk(ast.Expr(value=ast.Call(func=ast.Attribute(value=ast.Name(id=tmpn, ctx=ast.Load()), attr="append", ctx=ast.Load()),
                                                              args=[ast.Name(id=itemn, ctx=ast.Load())], keywords=[])))
                             loop = mk(ast.For(target=ast.Name(id=itemn, ctx=ast.Store()), iter=n.args[0], body=[app], orelse=[]))
-                            rep = mk(ast.Name(id=tmpn, ctx=ast.Load())) if n.func.id == "list" else mk(ast.Call(func=ast.Name(id="tuple", ctx=ast.Load()), args=[ast.Name(id=tmpn, ctx=ast.Load())], keywords=[]))
+                            rep = mk(ast.Name(id=tmpn, ctx=ast.Load())) if n.func.id == "list" else mk(ast.Call(func=ast.Name(id=n.func.id, ctx=ast.Load()), args=[ast.Name(id=tmpn, ctx=ast.Load())], keywords=[]))
                             if _replace_node(st, n, rep):
                                 pre.extend([init] + self.expand_block([loop], module, cls, depth, stack))
                                 self.inlined_calls.append(f"<collect> {n.func.id}({ast.unparse(n.args[0])[:40]}) written as a loop")
